@@ -140,9 +140,40 @@ func raceSig(rep string) string {
 // while the goroutine merges, and every conflicting unsynchronised access pair that occurs is reported (the detector
 // needs no particular interleaving for that, only that both accesses happen without a happens-before edge). It is not
 // an exhaustive exploration and is not counted as one (evidence: free_running_executions).
+// preflightLockModel runs the client script of a free-running pass once under the sequential lock model (a call that
+// would block for ever on a lock its own goroutine holds panics there): a self-deadlock is reported at once instead of
+// blocking the free-running pass for real until the watchdog kills the worker.
+func preflightLockModel(cfg Cfg, keys []string, pre, script []Op) string {
+	w := NewWorld(cfg, keys)
+	defer w.Destroy()
+	if err := w.Open(); err != nil {
+		return ""
+	}
+	for _, op := range append(append([]Op{}, pre...), script...) {
+		ar := w.Apply(op)
+		if errClass(ar.Err) == "panic" {
+			w.Dead = true // (Close would run into the same lock)
+			return fmt.Sprintf("%s: %s", op, panicDetail(ar.Err))
+		}
+		if w.Dead || w.DB == nil {
+			break
+		}
+	}
+	return ""
+}
+
 func c09BackgroundMergeTask(cfg Cfg, rounds int) func(res *TaskResult) {
 	return func(res *TaskResult) {
 		beginExecution()
+		script := []Op{{K: "put", Key: "a", VC: "S"}, {K: "put", Key: "b", VC: "L"}, {K: "del", Key: "a"}, {K: "put", Key: "a", VC: "L"},
+			{K: "batch", Sub: []Op{{K: "put", Key: "b", VC: "S"}, {K: "del", Key: "a"}}}, {K: "sync"}, {K: "put", Key: "a", VC: "S"}}
+		if d := preflightLockModel(cfg, keysAB, nil, append(append([]Op{}, script...), script...)); d != "" {
+			res.Execs++
+			res.Violations = append(res.Violations, Violation{Prop: "C09", Clause: "deadlock", Sig: "deadlock:client-script",
+				Detail: fmt.Sprintf("cfg=%s the client script of the background-merge pass, run alone under the lock model: %s", cfg, d),
+				Replay: mustJSON(map[string]any{"engine": "free-running", "property": "C09", "cfg": cfg, "rounds": rounds})})
+			return
+		}
 		sched.SetMode(sched.ModeOff)
 		vtime.TickerPeriod = 200 * time.Microsecond
 		defer func() { vtime.TickerPeriod = 0; sched.SetMode(sched.ModeSeq) }()
@@ -160,8 +191,6 @@ func c09BackgroundMergeTask(cfg Cfg, rounds int) func(res *TaskResult) {
 			res.Err = "background merge: open: " + panicDetail(err)
 			return
 		}
-		script := []Op{{K: "put", Key: "a", VC: "S"}, {K: "put", Key: "b", VC: "L"}, {K: "del", Key: "a"}, {K: "put", Key: "a", VC: "L"},
-			{K: "batch", Sub: []Op{{K: "put", Key: "b", VC: "S"}, {K: "del", Key: "a"}}}, {K: "sync"}, {K: "put", Key: "a", VC: "S"}}
 		for i := 0; i < rounds && !w.Dead; i++ {
 			progressTick.Add(1)
 			for _, op := range script {
@@ -223,6 +252,29 @@ func c09TwoDatabasesTask(cfg Cfg, n int) func(res *TaskResult) {
 				Detail: fmt.Sprintf("cfg=%s two databases in one process, %d keys each, driven by two goroutines at the same time (merge, put, delete, batch, reads, Stat, Sync, merge, restart)\n%s", cfg, n, detail),
 				Replay: mustJSON(map[string]any{"engine": "free-running-two", "property": "C09", "cfg": cfg, "n": n})})
 		}
+		script := func(d int) []Op {
+			return []Op{{K: "merge"}, {K: "put", Key: keys[d], VC: "S"}, {K: "del", Key: keys[2+d]},
+				{K: "batch", Sub: []Op{{K: "put", Key: keys[4+d], VC: "S"}, {K: "del", Key: keys[6+d]}}}, {K: "sync"}, {K: "merge"},
+				{K: "restart"}, {K: "put", Key: keys[8+d], VC: "S"}, {K: "merge"}, {K: "restart"},
+				{K: "put", Key: keys[10+d], VC: "S"}, {K: "merge"}, {K: "merge"}, {K: "restart"}}
+		}
+		{
+			var pre []Op
+			for round := 0; round < 2; round++ {
+				for i, k := range keys {
+					pre = append(pre, Op{K: "put", Key: k, VC: "F", Arg: 9 + (i+round)%7})
+				}
+			}
+			sched.SetMode(sched.ModeSeq)
+			d := preflightLockModel(cfg, keys, pre, script(0))
+			sched.SetMode(sched.ModeOff)
+			if d != "" {
+				res.Violations = append(res.Violations, Violation{Prop: "C09", Clause: "deadlock", Sig: "deadlock:client-script",
+					Detail: fmt.Sprintf("cfg=%s the script of one driver of the two-database pass, run alone under the lock model: %s", cfg, d),
+					Replay: mustJSON(map[string]any{"engine": "free-running-two", "property": "C09", "cfg": cfg, "n": n})})
+				return
+			}
+		}
 		var ws [2]*World
 		for d := range ws {
 			w := NewWorld(cfg, keys)
@@ -240,12 +292,6 @@ func c09TwoDatabasesTask(cfg Cfg, n int) func(res *TaskResult) {
 					}
 				}
 			}
-		}
-		script := func(d int) []Op {
-			return []Op{{K: "merge"}, {K: "put", Key: keys[d], VC: "S"}, {K: "del", Key: keys[2+d]},
-				{K: "batch", Sub: []Op{{K: "put", Key: keys[4+d], VC: "S"}, {K: "del", Key: keys[6+d]}}}, {K: "sync"}, {K: "merge"},
-				{K: "restart"}, {K: "put", Key: keys[8+d], VC: "S"}, {K: "merge"}, {K: "restart"},
-				{K: "put", Key: keys[10+d], VC: "S"}, {K: "merge"}, {K: "merge"}, {K: "restart"}}
 		}
 		bad := make([]string, 2)
 		done := make(chan int, 2)
